@@ -33,7 +33,7 @@ CHECKS["C04"] = {
     "pkg": "./props/c04",
     "level": "exploration",
     "technique": "property-based testing (rapid): generated configurations x requests against a reference authorisation model, a call-recording token and a metamorphic header relation",
-    "level_text": "Generated relic configurations (clients by SPKI fingerprint or issuing CA incl. chains, wrong EKU, expired; role sets; keys incl. aliases that dangle / chain / self-reference, hidden, tokenless, undefined-token; trusted-proxy lists v4/v6/CIDR) are loaded through config.ReadFile and served by the real server.New(cfg).Handler(). For each generated request (endpoint, key, peer, TLS chain, X-Forwarded-For / Ssl-Client-Cert, or bearer token with a scripted policy endpoint) a reference model of the statement predicts 401/403/400/allowed; a recording token registered via token.Openers proves no GetKey/Sign on refused requests; the access log's stack field exposes recovered panics; listings are checked in both directions; headers from untrusted peers must leave status, body, logged address/user and audit identity unchanged; audit records must name the resolved key, the model's client and address.",
+    "level_text": "Generated relic configurations (clients by SPKI fingerprint or issuing CA incl. chains, wrong EKU, expired; role sets; keys incl. aliases that dangle / chain / self-reference, hidden, tokenless, undefined-token; trusted-proxy lists v4/v6/CIDR) are loaded through config.ReadFile and served by the real server.New(cfg).Handler(). For each generated request (endpoint, key, peer, TLS chain, X-Forwarded-For / Ssl-Client-Cert, TLS or plaintext listener, or bearer token with a scripted policy endpoint incl. denial without an error list) a reference model of the statement predicts 401/403/400/allowed; a recording token registered via token.Openers proves no GetKey/Sign on refused requests; the access log's stack field exposes recovered panics; listings are checked in both directions; headers from untrusted peers must leave status, body, logged address/user and audit identity unchanged; audit records must name the resolved key, the model's client and address.",
     "level_note": "TLS chains are injected as tls.ConnectionState (no handshake). For a trusted peer that sends no X-Forwarded-For either identity source is accepted. Entitled callers of role-less keys (reachable only through policy allowed_keys) may get an error: relic opens no token for them and C04 does not demand success.",
     "quick": {"checks": 6000, "timeout": 600},
     "thorough": {"checks": 40000, "timeout": 3000, "shards": 8},
@@ -51,7 +51,7 @@ CHECKS["C01"] = {
     "pkg": "./props/c01",
     "level": "exploration",
     "technique": "property-based testing (rapid): generated artefacts x key x digest x flags x pipeline, oracle = support table + relic verifier + identity/digest of the accepted signature",
-    "level_text": "For each of 17 package types an input is drawn (by-construction generators for PE, MSI/CFB, JAR/ZIP, PowerShell family and PGP payloads; repository fixtures for the rest), then key (RSA-2048/3072, P-256/384/521), digest (SHA-1..SHA-512), signer flags, pipeline (library call sequence of the sign command; real daemon over TLS + remote client; the relic binary), output path mode and optional pre-signing. Supported combinations must sign and verify under relic's verifier with digests and chain checking on, naming the configured leaf (or PGP key) and the requested digest; unsupported ones must fail with an explicit error, leave the input byte-identical and leave no output or temporary file.",
+    "level_text": "For each of 17 package types an input is drawn (by-construction generators for PE, MSI/CFB, JAR/ZIP/APK, PowerShell family, PGP payloads, cabinets with reserved header space, APPX packages with an asset around the 64 KiB block size and small Mach-O images; repository fixtures for the rest), then key (RSA-2048/3072, P-256/384/521), digest (SHA-1..SHA-512), signer flags, pipeline (library call sequence of the sign command; real daemon over TLS + remote client; the relic binary), output path mode, optional pre-signing (for Debian packages in a drawn role slot) and, for X.509 types, key entries that share a key file with another entry but carry their own certificate. Supported combinations must sign and verify under relic's verifier with digests and chain checking on, naming the configured leaf (or PGP key) and the requested digest; unsupported ones must fail with an explicit error, leave the input byte-identical and leave no output or temporary file.",
     "level_note": "Support table written from README/doc (three-valued); file token only. Inputs for cab/cat/xap/vsix/appx/apk/dmg/pkg/mach-o/rpm/deb/appmanifest are the repository fixtures (no generator), so the input quantifier is only sampled there.",
     "quick": {"checks": 300, "timeout": 1200},
     "thorough": {"checks": 1500, "timeout": 3400, "shards": 8},
@@ -60,7 +60,7 @@ CHECKS["C03"] = {
     "pkg": "./props/c03",
     "level": "exploration",
     "technique": "property-based testing (rapid): sign generated artefacts, compare payload items before/after with independent readers",
-    "level_text": "For PE, MSI/CFB, JAR (plain and hostile layouts: prefix bytes, gaps, zero-length members, long names), PowerShell scripts, XAP, VSIX, APPX, APK, Mach-O and DEB an input is generated (or a fixture drawn), signed through the library pipeline to the same or a new path, and the outcome must be either (error, input byte-identical, nothing left behind) or (success; output accepted by an independent reader - Go archive/zip, debug/macho, ar, harness PE parser, harness CFB validator; every payload item that is not signature metadata identical in bytes, metadata and order; relic's verifier accepts it).",
+    "level_text": "For PE, MSI/CFB, JAR (plain and hostile layouts: prefix bytes, gaps, zero-length members, long names), PowerShell scripts, XAP, VSIX, APPX (generated assets around the block size), APK, Mach-O (generated images with 0-1024 bytes of header padding; refusal accepted below 16), DEB, cabinets (generated header reserves), application manifests and RPM an input is generated (or a fixture drawn), in one case of three pre-signed by relic, signed through the library pipeline to the same or a new path, and the outcome must be either (error, input byte-identical, nothing left behind) or (success; output accepted by an independent reader - Go archive/zip, debug/macho, a strict ar walker plus ar(1), harness PE parser, harness CFB validator, harness cabinet reader that follows every offset and checksum, encoding/xml token comparison, RPM lead/header framing; every payload item that is not signature metadata identical in bytes, metadata and order; relic's verifier accepts it).",
     "level_note": "Signature metadata per format is listed in harness/arts (e.g. META-INF/*.SF|RSA|EC|MANIFEST.MF for JAR; AppxManifest.xml for APPX because relic rewrites its Publisher by design). CAB, CAT, DMG, XAR and RPM have no independent payload reader here and are not covered by this check.",
     "quick": {"checks": 300, "timeout": 1200},
     "thorough": {"checks": 2500, "timeout": 3400, "shards": 8},
@@ -87,7 +87,7 @@ CHECKS["C16"] = {
     "pkg": "./props/c16",
     "level": "exploration",
     "technique": "property-based round-trip testing (rapid) with an independent DER walker/verifier as oracle, OpenSSL cross-check on a sample",
-    "level_text": "Harness-built third-party-style SignedData (unsorted signed attributes, extra attributes incl. unknown OIDs, several certificates and CRLs in any order, 1-3 SignerInfos, RSA PKCS#1 / RSA-PSS / ECDSA, NULL vs absent digest parameters, nested countersignatures and RFC 3161 tokens, attached/detached/non-data content) and harness-TSA tokens in many option combinations go through relic's Unmarshal -> Marshal, Detach and timestamp embedding; every signed region located by an independent DER walker must still be present byte-identically and every signature, countersignature and token must still verify with Go crypto (openssl cms -verify on a sample). The PKCS#7 inside relic's own PE, MSI, PowerShell, JAR and catalog outputs (drawn key, digest, options) must carry content-type and message-digest exactly once and consistent with the content, verify over exactly the emitted SET OF bytes under the configured leaf, keep a re-signed catalog's content byte-identical, and survive relic's own round trip byte-identically.",
+    "level_text": "Harness-built third-party-style SignedData (unsorted signed attributes, extra attributes incl. unknown OIDs, several certificates and CRLs in any order, 1-3 SignerInfos, RSA PKCS#1 / RSA-PSS / ECDSA, NULL vs absent digest parameters, nested countersignatures and RFC 3161 tokens, attached/detached/non-data content) and harness-TSA tokens in many option combinations go through relic's Unmarshal -> Marshal, Detach and timestamp embedding; every signed region located by an independent DER walker must still be present byte-identically and every signature, countersignature and token must still verify with Go crypto (openssl cms -verify on a sample). The PKCS#7 inside relic's own PE, MSI, PowerShell, JAR and catalog outputs (drawn key, digest, options) must carry content-type and message-digest exactly once and consistent with the content, verify over exactly the emitted SET OF bytes under the configured leaf, keep a re-signed catalog's content byte-identical, and survive relic's own round trip byte-identically; CRLs (Go-made and hand-encoded) travel in the generated values; a re-sign over a parsed ContentInfo must carry it byte for byte; a key whose certificate comes from a CA with UTF8String/T61String name values must yield a SignerInfo issuer equal to the certificate's issuer bytes; a token with a two-valued message-digest attribute is refused or emitted single-valued.",
     "level_note": "Trusts the harness DER walker/verifier (cross-checked against openssl cms/ts and the Microsoft-signed fixture catalog). BER framing and subjectKeyIdentifier signer ids are excluded because relic's parser refuses them explicitly (no re-encoding happens).",
     "quick": {"checks": 2000, "timeout": 900},
     "thorough": {"checks": 15000, "timeout": 3400, "shards": 8},
@@ -105,7 +105,7 @@ CHECKS["C07"] = {
     "pkg": "./props/c07",
     "level": "exploration",
     "technique": "property-based testing (rapid) over generated key/certificate configurations with an independent extraction of the embedded leaf and signature check",
-    "level_text": "Configurations are generated per case: private key from a pool of 7 (two RSA-2048, RSA-3072, two P-256, P-384, P-521) x certificate made for the same key, another key of the same kind, another kind, or the same curve with another point x chain order (leaf first/last/middle, with/without intermediate and root) x container (PEM, concatenated DER, certs-only PKCS#7 PEM/DER, PKCS#12 bundle, token-stored certificate, token that hands out another key than the certificate's) x PGP certificate of the same/another key x 12 signature types. If the certificate relic treats as leaf does not belong to the signing key, signing must fail, leave the input untouched and emit nothing; if a signature is emitted, the first embedded certificate must be the signing key's and the signature must verify under it (PKCS#7 types: independent DER walker + Go crypto; others: relic's verifier with that certificate / PGP key as the only acceptable signer).",
+    "level_text": "Configurations are generated per case: private key from a pool of 7 (two RSA-2048, RSA-3072, two P-256, P-384, P-521) x certificate made for the same key, another key of the same kind, another kind, or the same curve with another point x chain order (leaf first/last/middle, with/without intermediate and root; self-signed leaf alone, followed by unrelated certificates, or not first) x container (PEM, concatenated DER, certs-only PKCS#7 PEM/DER, PKCS#12 bundle, token-stored certificate, token that hands out another key than the certificate's) x PGP certificate of the same/another key x 12 signature types. If the certificate relic treats as leaf does not belong to the signing key, signing must fail, leave the input untouched and emit nothing; if a signature is emitted, the first embedded certificate must be the signing key's and the signature must verify under it (PKCS#7 types: independent DER walker + Go crypto; others: relic's verifier with that certificate / PGP key as the only acceptable signer). A rotated key behind the key cache: a lookup pinned to a key identifier yields a signature that verifies under that version's certificate, whatever the cache holds.",
     "level_note": "File token and a recording token registered through token.Openers; PKCS#11/cloud tokens not exercised. A matching configuration may be refused only for the documented manifest requirement (issuer certificate must be in the chain).",
     "quick": {"checks": 4000, "timeout": 900},
     "thorough": {"checks": 30000, "timeout": 3400, "shards": 8},
@@ -114,7 +114,7 @@ CHECKS["C02"] = {
     "pkg": "./props/c02",
     "level": "exploration",
     "technique": "metamorphic property-based testing (rapid): mutate protected regions (computed from the format specifications by independent readers) of signed artefacts; verifier must reject",
-    "level_text": "18 artefact kinds (PE, MSI, JAR, APK, VSIX, XAP, APPX, PowerShell, Mach-O, CAB, DMG, XAR, RPM, DEB, catalog, PGP detached/clearsign/inline) are signed with drawn key and digest; the harness computes protected byte ranges from the format specifications with independent readers (PE layout parser, CFB reader incl. mini-stream ranges, ZIP directory, Mach-O sections, CAB/DMG/XAR/RPM/ar headers, PGP v4 packet structure, DER walker for signed attributes, message digest, content octets, signature value and leaf certificate) and applies bit flips, overwrites, 2-8 byte scrambles and truncations there, plus semantic edits (replace/delete/add ZIP member, graft a signature onto other content, append data after or inside the signature container, add or change an MSI stream by rebuilding the container). A mutation that the independent reader shows to leave protected content unchanged is discarded and counted. relic's verifier (digests and chain on) must reject every remaining mutant.",
+    "level_text": "18 artefact kinds (PE, MSI, JAR, APK, VSIX, XAP, APPX, PowerShell, Mach-O, CAB, DMG, XAR, RPM, DEB, catalog, PGP detached/clearsign/inline) are signed with drawn key and digest; the harness computes protected byte ranges from the format specifications with independent readers (PE layout parser, CFB reader incl. mini-stream ranges, ZIP directory, Mach-O sections, CAB/DMG/XAR/RPM/ar headers, PGP v4 packet structure, DER walker for signed attributes, message digest, content octets, signature value and leaf certificate) and applies bit flips, overwrites, 2-8 byte scrambles and truncations there, plus semantic edits (replace/delete/add ZIP member, graft a signature onto other content, append data after or inside the signature container, add or change an MSI stream by rebuilding the container, add a JAR member that is also listed in a new manifest section, rewrite a JAR member with manifest and .SF recomputed while the block-embedded signature file stays, rebuild the APK v2 block with a foreign key that lists the original certificates, append script text after a PowerShell signature block, flip bytes of XAR heap files at any directory depth). A mutation that the independent reader shows to leave protected content unchanged is discarded and counted. relic's verifier (digests and chain on) must reject every remaining mutant.",
     "level_note": "Protected sets follow the specifications, not relic (e.g. the outer ContentInfo framing, PGP unhashed subpackets, [Content_Types].xml of OPC packages and unlisted JAR members are not claimed protected). A verifier panic on a mutant is counted, not reported here (C11's subject).",
     "quick": {"checks": 60, "timeout": 1500, "env": {"VERIF_C02_MUTATIONS": 10}},
     "thorough": {"checks": 400, "timeout": 3400, "shards": 8, "env": {"VERIF_C02_MUTATIONS": 25}},
@@ -123,7 +123,7 @@ CHECKS["C05"] = {
     "pkg": "./props/c05",
     "level": "exploration",
     "technique": "differential property-based testing (rapid) against independent reference verifiers and specification-derived reference computations",
-    "level_text": "relic-signed artefacts (generated PE, MSI, JAR, APK with members around the 1 MiB chunk size, PGP payloads; fixtures for DEB and RPM; drawn key, digest and options) are handed to code that shares nothing with relic: jarsigner -verify -strict with the harness CA as trust anchor; openssl cms -verify of the JAR signature block over the .SF file (chain to the harness CA); gpgv for detached / clearsign / inline PGP signatures (recovered text compared), for DEB role members (plus md5sum/sha1sum/size of every listed member, dpkg-deb -I/-c) and for the RPM header-only and header+payload signatures cut out of the signature header by an independent parser; and reference computations written from the specifications, compared with the digest the independent DER walker extracts from relic's signature: Authenticode PE image hash, page-hash table, PE checksum, WIN_CERTIFICATE framing and alignment, APK Signature Scheme v2 chunked digest, MSI stream-order digest and MsiDigitalSignatureEx pre-hash. Authenticode SignedData is verified with the DER walker + Go crypto.",
+    "level_text": "relic-signed artefacts (generated PE, MSI, JAR, APK with members around the 1 MiB chunk size, PGP payloads; fixtures for DEB and RPM; drawn key, digest and options) are handed to code that shares nothing with relic: jarsigner -verify -strict with the harness CA as trust anchor; openssl cms -verify of the JAR signature block over the .SF file (chain to the harness CA); gpgv for detached / clearsign / inline PGP signatures (recovered text compared), for DEB role members (plus md5sum/sha1sum/size of every listed member, dpkg-deb -I/-c) and for the RPM header-only and header+payload signatures cut out of the signature header by an independent parser; and reference computations written from the specifications, compared with the digest the independent DER walker extracts from relic's signature: Authenticode PE image hash, page-hash table, PE checksum, WIN_CERTIFICATE framing and alignment, APK Signature Scheme v2 chunked digest, MSI stream-order digest and MsiDigitalSignatureEx pre-hash, cabinet image hash (header fields + folders + data, generated reserves and set identifiers). VSIX package signatures (all keys and digests) and SHA-1 ClickOnce manifest signatures are validated by the JDK's javax.xml.crypto.dsig. Authenticode SignedData is verified with the DER walker + Go crypto.",
     "level_note": "signtool, codesign, apksigner, msiexec and .NET are not available offline: platform acceptance is approximated by the reference computations. JDK policy treats SHA-1 JAR signatures as unsigned (counted, not judged); inputs the JDK's own ZIP reader refuses are counted, not judged. The CAB header digest, XAR/Mach-O CMS and VSIX (see C19) are not covered here.",
     "quick": {"checks": 90, "timeout": 1500},
     "thorough": {"checks": 600, "timeout": 3400, "shards": 8},
@@ -132,7 +132,7 @@ CHECKS["C09"] = {
     "pkg": "./props/c09",
     "level": "exploration",
     "technique": "property-based testing (rapid) with harness-owned read schedules and scripted front servers; differential on the embedded content digest",
-    "level_text": "(a) Every transform kind is read 2-4 times (optionally after a partially read, abandoned attempt, and in a repetition test with an attempt that is never read) and all complete reads must be byte-identical. (b) Signers are fed their upload stream under drawn read-size schedules (1 byte, primes, straddling 4 KiB / 64 KiB / 1 MiB, short reads, data returned with EOF): signing must succeed like a whole read, the patched file must verify and the embedded content digest, extracted without relic (PE, MSI, PowerShell, JAR per-file digests, APK v2), must be identical. (c) The same input is signed standalone and through the real daemon behind 1-3 scripted front servers (503 before/after reading k bytes, connection reset, 406, pass) listed by a scripted directory that advertises identity / gzip / snappy / unknown encodings, with a drawn retry budget: any produced signature must verify and embed the standalone digest; scripts with only transient HTTP failures, a passing server and enough retries must succeed; a failure must leave the input untouched.",
+    "level_text": "(a) Every transform kind is read 2-4 times (optionally after a partially read, abandoned attempt, in a repetition test with an attempt that is never read, and for Mach-O with drawn auxiliary files) and all complete reads must be byte-identical; an abandoned gzip/snappy-compressed request followed by a retry over the same file must deliver the whole input (150 repetitions per encoding). (b) Signers are fed their upload stream under drawn read-size schedules on unsigned and relic-signed inputs, with PE page hashes drawn (1 byte, primes, straddling 4 KiB / 64 KiB / 1 MiB, short reads, data returned with EOF): signing must succeed like a whole read, the patched file must verify and the embedded content digest, extracted without relic (PE, MSI, PowerShell, JAR per-file digests, APK v2), must be identical. (c) The same input is signed standalone and through the real daemon behind 1-3 scripted front servers (503 before/after reading k bytes, connection reset, 406, pass) listed by a scripted directory that advertises identity / gzip / snappy / unknown encodings, with a drawn retry budget: any produced signature must verify and embed the standalone digest; scripts with only transient HTTP failures, a passing server and enough retries must succeed; a failure must leave the input untouched.",
     "level_note": "The Go scheduler is not owned by the harness: the abandoned-attempt race is attacked by repetition (60 per transform, thorough 2000). Connection resets may or may not be failed over (unspecified), only the result's integrity is judged there.",
     "quick": {"checks": 400, "timeout": 1500, "env": {"VERIF_C09_ABANDON_REPS": 60}},
     "thorough": {"checks": 4000, "timeout": 3400, "shards": 8, "env": {"VERIF_C09_ABANDON_REPS": 2000}},
@@ -141,7 +141,7 @@ CHECKS["C10"] = {
     "pkg": "./props/c10",
     "level": "exploration",
     "technique": "model-based property testing (rapid) with scripted RFC 3161 / legacy timestamp authorities; metamorphic token grafting; validity-window sweep",
-    "level_text": "Three RFC 3161 and two legacy Microsoft authorities (harness encoder, cross-validated with openssl ts) each get one drawn behaviour per case (valid, granted-with-mods, wrong nonce, nonce omitted, wrong imprint, wrong imprint algorithm, rejection, waiting, granted without token, bad token signature, HTTP 500, garbage, truncated, wrong content type, hang until timeout); 14 timestamp-capable signature types, all keys, several digests are signed through relic's configured timestamper. Model: the token of the first authority whose reply is acceptable per the statement is attached (identified by its certificate and attested time), earlier authorities were contacted, later ones were not; no acceptable reply => signing fails and the input is untouched; no-timestamp => no request. At library level a token over another signature value, a token with a bad signature, or an altered host signature must fail verification while the matching token verifies including its chain. Signer certificates with drawn lifetimes and attested times (inside, outside, and within one second of both edges) must verify iff the attested time lies inside the lifetime, or, without a timestamp, iff the current time does.",
+    "level_text": "Three RFC 3161 and two legacy Microsoft authorities (harness encoder, cross-validated with openssl ts) each get one drawn behaviour per case (valid, granted-with-mods, wrong nonce, nonce omitted, wrong imprint, wrong imprint algorithm, rejection, rejection with a token attached, waiting, granted without token, bad token signature, HTTP 500, garbage, truncated, wrong content type, hang until timeout); 14 timestamp-capable signature types, all keys, several digests are signed through relic's configured timestamper. Model: the token of the first authority whose reply is acceptable per the statement is attached (identified by its certificate and attested time), earlier authorities were contacted, later ones were not; no acceptable reply => signing fails and the input is untouched; no-timestamp => no request. At library level a token over another signature value, a token with a bad signature, a genuine token whose TSTInfo was swapped afterwards, a legacy countersignature lifted from another signature, or an altered host signature must fail verification while the matching token verifies including its chain. Signer certificates with drawn lifetimes and attested times (inside, outside, and within one second of both edges) must verify iff the attested time lies inside the lifetime, or, without a timestamp, iff the current time does; a token signed by a certificate without the time-stamping usage never establishes the time; after an in-lifetime acceptance a second signature by the same certificate outside the lifetime is still refused (one trust pool per root set, as in one verify invocation). Failures a late reply could explain must repeat three times.",
     "level_note": "Trusts the harness TSA encoder (its own tests validate it with openssl ts -verify). The memcached timestamp cache and the rate limiter are not exercised. Hang behaviours are rare because each costs the 1 s client timeout.",
     "quick": {"checks": 350, "timeout": 1500},
     "thorough": {"checks": 4000, "timeout": 3400, "shards": 8},
